@@ -3,7 +3,16 @@
 // The harness owns the parentless-check schedule: CheckParentless only stores the `checked`
 // closure; the driver fires the closures later, in a drawn order, first sequentially (interleaved
 // with further Enqueue calls) and then from 1-3 goroutines, with drawn errors. Every `done` is
-// awaited before Stop().
+// awaited before Stop() returns; in the "stop overlaps the last batch" class Stop() is started while
+// the inserter is inside the HighestLamport call for the last event of the last batch (every other
+// event of that batch was handled already), so that the batch still finishes (its done fires) while
+// Stop() is running.
+//
+// Highest known Lamport: constant, following the processed events upwards, or following a drawn
+// schedule that also goes DOWN (the application switched epoch). The far-future clauses are stated
+// on the window of values HighestLamport() had between the Enqueue call of a copy's batch and the
+// observation: Process requires Lamport <= max(window till Process) + limit + 1; "reaches the
+// buffer" is required for Lamport <= min(window till done) + limit + 1.
 //
 // Oracle (on the logged callback order, written from the property text):
 //   - every copy of an accepted batch (Enqueue returned nil) is reported released exactly once by
@@ -64,29 +73,39 @@ type batchSpec struct {
 	Async    bool   `json:"enqueue_from_own_goroutine,omitempty"`
 	Events   []int  `json:"events"`
 	CheckErr []bool `json:"parentless_check_fails"`
+	HasSet   bool   `json:"highest_changes_before_enqueue,omitempty"`
+	SetTo    uint32 `json:"highest_becomes,omitempty"`
 }
 
 type step struct {
 	Fire bool `json:"fire"` // false: enqueue the next batch
 	Pick int  `json:"pick"`
+	// Set: the application's highest Lamport becomes SetTo (neither fire nor enqueue)
+	Set   bool   `json:"set_highest,omitempty"`
+	SetTo uint32 `json:"highest_becomes,omitempty"`
 }
 
 type caseSpec struct {
-	Events     []evSpec    `json:"events"`
-	Batches    []batchSpec `json:"batches"`
-	SemNum     uint32      `json:"sem_num"`
-	SemSize    uint64      `json:"sem_size"`
-	BufNum     uint32      `json:"buffer_num"`
-	BufSize    uint64      `json:"buffer_size"`
-	Highest    uint32      `json:"highest_lamport"`
-	Dynamic    bool        `json:"highest_follows_processed,omitempty"`
-	MaxTasks   int         `json:"max_tasks"`
-	TimeoutMs  int         `json:"semaphore_timeout_ms"`
-	Steps      []step      `json:"steps"`
-	Goroutines int         `json:"goroutines"`
-	Prio       []int       `json:"prio"`   // per copy: order inside its firing goroutine
-	Worker     []int       `json:"worker"` // per copy: which firing goroutine
-	NotifyNil  bool        `json:"notify_nil,omitempty"`
+	Events    []evSpec    `json:"events"`
+	Batches   []batchSpec `json:"batches"`
+	SemNum    uint32      `json:"sem_num"`
+	SemSize   uint64      `json:"sem_size"`
+	BufNum    uint32      `json:"buffer_num"`
+	BufSize   uint64      `json:"buffer_size"`
+	Highest   uint32      `json:"highest_lamport"`
+	Dynamic   bool        `json:"highest_follows_processed,omitempty"`
+	Scheduled bool        `json:"highest_follows_schedule_may_decrease,omitempty"`
+	// StopOverlap: the last batch is enqueued after every other done; Stop() starts while the inserter
+	// is inside the HighestLamport call of the copy of that batch that is handled last
+	StopOverlap bool   `json:"stop_overlaps_last_batch,omitempty"`
+	LastOrder   []int  `json:"last_batch_firing_order,omitempty"`
+	MaxTasks    int    `json:"max_tasks"`
+	TimeoutMs   int    `json:"semaphore_timeout_ms"`
+	Steps       []step `json:"steps"`
+	Goroutines  int    `json:"goroutines"`
+	Prio        []int  `json:"prio"`   // per copy: order inside its firing goroutine
+	Worker      []int  `json:"worker"` // per copy: which firing goroutine
+	NotifyNil   bool   `json:"notify_nil,omitempty"`
 }
 
 // ---------------------------------------------------------------------------------------------
@@ -153,11 +172,21 @@ type harness struct {
 	procCalls     []int
 	firstExistsAt []int
 	highest       idx.Lamport
+	hist          []idx.Lamport // every value the highest known Lamport had, in order (hist[len-1] == highest)
+	enqHist       []int         // per batch: index into hist of the value current when its Enqueue call began
+	doneHist      []int         // per batch: index into hist of the value current when its done was called
 	fireSeq       int
-	viol          string
-	doneCh        []chan struct{}
-	doneCalls     []int
-	accepted      []int // -1 unknown, 0 refused, 1 accepted
+	// stop-overlap gate: the gateLeft-th HighestLamport call from now blocks until gateProceed is closed
+	gateLeft    int
+	gateEntered chan struct{}
+	gateProceed chan struct{}
+	gateOnce    sync.Once
+	stopBegun   bool
+	relSignal   chan struct{} // a Released callback came after Stop() was started
+	viol        string
+	doneCh      []chan struct{}
+	doneCalls   []int
+	accepted    []int // -1 unknown, 0 refused, 1 accepted
 }
 
 func (h *harness) violate(format string, a ...interface{}) {
@@ -183,6 +212,30 @@ func (h *harness) touch(cp int) {
 	h.mu.Unlock()
 }
 
+// setHighest must be called with h.mu held
+func (h *harness) setHighest(v idx.Lamport) {
+	h.highest = v
+	h.hist = append(h.hist, v)
+}
+
+// window returns the minimum and maximum of hist[from..to]. h.mu held.
+func (h *harness) window(from, to int) (lo, hi idx.Lamport) {
+	lo, hi = h.hist[from], h.hist[from]
+	for _, v := range h.hist[from : to+1] {
+		if v < lo {
+			lo = v
+		}
+		if v > hi {
+			hi = v
+		}
+	}
+	return
+}
+
+func (h *harness) releaseGate() {
+	h.gateOnce.Do(func() { close(h.gateProceed) })
+}
+
 func (h *harness) threshold(highest idx.Lamport) uint64 {
 	return uint64(highest) + uint64(h.cs.BufNum) + 1
 }
@@ -196,7 +249,9 @@ func eventID(i int) (id [24]byte) {
 func newHarness(cs *caseSpec) *harness {
 	n := len(cs.Events)
 	h := &harness{cs: cs, byID: make(map[hash.Event]int, n), connected: make([]bool, n), connectedAs: make([]dag.Event, n),
-		procOK: make([]int, n), procCalls: make([]int, n), firstExistsAt: make([]int, n), highest: idx.Lamport(cs.Highest)}
+		procOK: make([]int, n), procCalls: make([]int, n), firstExistsAt: make([]int, n), highest: idx.Lamport(cs.Highest),
+		hist: []idx.Lamport{idx.Lamport(cs.Highest)}, gateEntered: make(chan struct{}), gateProceed: make(chan struct{}),
+		relSignal: make(chan struct{}, 1)}
 	for i, s := range cs.Events {
 		e := &tdag.TestEvent{}
 		e.Name = fmt.Sprintf("e%d", i)
@@ -226,6 +281,8 @@ func newHarness(cs *caseSpec) *harness {
 		h.doneCh = append(h.doneCh, make(chan struct{}))
 		h.doneCalls = append(h.doneCalls, 0)
 		h.accepted = append(h.accepted, -1)
+		h.enqHist = append(h.enqHist, -1)
+		h.doneHist = append(h.doneHist, -1)
 	}
 	h.cap = dag.Metric{Num: idx.Event(cs.SemNum), Size: cs.SemSize}
 	h.sem = datasemaphore.New(h.cap, func(received, processing, releasing dag.Metric) {
@@ -244,8 +301,19 @@ func (h *harness) callbacks() dagprocessor.Callback {
 	return dagprocessor.Callback{
 		HighestLamport: func() idx.Lamport {
 			h.mu.Lock()
-			defer h.mu.Unlock()
-			return h.highest
+			v := h.highest
+			block := false
+			if h.gateLeft > 0 {
+				h.gateLeft--
+				block = h.gateLeft == 0
+			}
+			h.mu.Unlock()
+			if block {
+				// the inserter holds the last check result of the last batch and is about to push it
+				close(h.gateEntered)
+				<-h.gateProceed
+			}
+			return v
 		},
 		Event: dagprocessor.EventCallback{
 			CheckParentless: func(e dag.Event, checked func(error)) {
@@ -324,9 +392,12 @@ func (h *harness) callbacks() dagprocessor.Callback {
 						h.violate("e%d was handed to Process before its parent e%d was connected", ev, p)
 					}
 				}
-				if uint64(cs.Events[ev].Lamport) > h.threshold(h.highest) {
-					h.violate("e%d with Lamport %d was handed to Process although the highest known Lamport is %d and the buffer limit is %d events (allowed up to %d)",
-						ev, cs.Events[ev].Lamport, h.highest, cs.BufNum, h.threshold(h.highest))
+				// the highest known Lamport the processor can have seen for this copy: any value between the
+				// Enqueue call of its batch and now (without decreases that is the current value)
+				_, hi := h.window(h.enqHist[st.batch], len(h.hist)-1)
+				if uint64(cs.Events[ev].Lamport) > h.threshold(hi) {
+					h.violate("e%d with Lamport %d was handed to Process although the highest known Lamport is %d (values since the Enqueue call of its batch %d: %v) and the buffer limit is %d events (allowed up to %d)",
+						ev, cs.Events[ev].Lamport, h.highest, st.batch, h.hist[h.enqHist[st.batch]:], cs.BufNum, h.threshold(hi))
 				}
 				if err != nil {
 					return err
@@ -335,7 +406,7 @@ func (h *harness) callbacks() dagprocessor.Callback {
 				h.connected[ev] = true
 				h.connectedAs[ev] = e
 				if cs.Dynamic && idx.Lamport(cs.Events[ev].Lamport) > h.highest {
-					h.highest = idx.Lamport(cs.Events[ev].Lamport)
+					h.setHighest(idx.Lamport(cs.Events[ev].Lamport))
 				}
 				return nil
 			},
@@ -348,6 +419,12 @@ func (h *harness) callbacks() dagprocessor.Callback {
 					return
 				}
 				h.semCheck("Released")
+				if h.stopBegun {
+					select {
+					case h.relSignal <- struct{}{}:
+					default:
+					}
+				}
 				st := &h.copies[c.cp]
 				st.released++
 				h.log = append(h.log, entry{kind: "Released", cp: c.cp, ev: st.ev, err: err})
@@ -374,6 +451,14 @@ type outcome struct {
 	cleanLiveness                   bool
 	waited                          bool // some copy was still held by the buffer when Stop was called
 	checkRejected                   bool
+	staleSensitive                  bool // an accepted batch has a check-passing event that is too far ahead of every value in its window but not of an earlier, higher value
+	windowMoved                     bool // the highest known Lamport changed between the Enqueue call and the done of an accepted batch
+	overlapped                      bool // Stop() was started while the inserter was inside the last HighestLamport call of the last batch
+	overlapLastRefused              bool
+	overlapGateMissed               bool
+	overlapOthersHeld               bool // other copies were held by the buffer when the overlapping Stop() started
+	overlapGatedReleasedByStop      bool // the gated copy was released after the done of its batch (by the final clear of Stop)
+	overlapSawTerminate             bool
 }
 
 func (h *harness) fire(cp int) {
@@ -427,6 +512,24 @@ func runCase(cs *caseSpec) (*harness, *outcome) {
 		}
 	}
 
+	// settle is a scheduling aid, never a correctness signal: before the highest known Lamport is
+	// changed, give the inserter a bounded chance to consume the check results fired so far
+	settle := func() {
+		for i := 0; i < 100; i++ {
+			h.mu.Lock()
+			ok := h.firedHandled()
+			h.mu.Unlock()
+			if ok {
+				return
+			}
+			time.Sleep(50 * time.Microsecond)
+		}
+	}
+	mainN := len(cs.Batches)
+	if cs.StopOverlap {
+		mainN-- // the last batch is enqueued after every other done
+	}
+
 	var asyncWG sync.WaitGroup
 	enqueue := func(b int) {
 		bs := cs.Batches[b]
@@ -444,6 +547,9 @@ func runCase(cs *caseSpec) (*harness, *outcome) {
 				h.mu.Lock()
 				h.doneCalls[b]++
 				n := h.doneCalls[b]
+				if n == 1 {
+					h.doneHist[b] = len(h.hist) - 1
+				}
 				h.log = append(h.log, entry{kind: "done", cp: -1, ev: -1, note: fmt.Sprintf("batch %d", b)})
 				h.mu.Unlock()
 				if n == 1 {
@@ -459,7 +565,15 @@ func runCase(cs *caseSpec) (*harness, *outcome) {
 			h.log = append(h.log, entry{kind: "Enqueue-returned", cp: -1, ev: -1, err: err, note: fmt.Sprintf("batch %d", b)})
 			h.mu.Unlock()
 		}
+		if bs.HasSet {
+			settle()
+		}
 		h.mu.Lock()
+		if bs.HasSet {
+			h.setHighest(idx.Lamport(bs.SetTo))
+			h.log = append(h.log, entry{kind: "highest-Lamport-becomes", cp: -1, ev: -1, note: fmt.Sprint(bs.SetTo)})
+		}
+		h.enqHist[b] = len(h.hist) - 1
 		h.log = append(h.log, entry{kind: "Enqueue", cp: -1, ev: -1, note: fmt.Sprintf("batch %d ordered=%v async=%v events=%v", b, bs.Ordered, bs.Async, bs.Events)})
 		h.mu.Unlock()
 		if bs.Async {
@@ -487,8 +601,16 @@ func runCase(cs *caseSpec) (*harness, *outcome) {
 	// phase A: sequential interleaving of Enqueue calls and single firings
 	next := 0
 	for _, s := range cs.Steps {
+		if s.Set {
+			settle()
+			h.mu.Lock()
+			h.setHighest(idx.Lamport(s.SetTo))
+			h.log = append(h.log, entry{kind: "highest-Lamport-becomes", cp: -1, ev: -1, note: fmt.Sprint(s.SetTo)})
+			h.mu.Unlock()
+			continue
+		}
 		if !s.Fire {
-			if next < len(cs.Batches) {
+			if next < mainN {
 				enqueue(next)
 				next++
 			}
@@ -505,7 +627,7 @@ func runCase(cs *caseSpec) (*harness, *outcome) {
 		}
 		h.fire(cp)
 	}
-	for ; next < len(cs.Batches); next++ {
+	for ; next < mainN; next++ {
 		enqueue(next)
 	}
 	// the remaining closures are fired from 1-3 goroutines while asynchronous Enqueue calls may
@@ -571,7 +693,7 @@ firing:
 		}
 	}
 	// every done of an accepted batch is awaited
-	for b := range cs.Batches {
+	for b := 0; b < mainN; b++ {
 		if h.accepted[b] == 1 {
 			out.acceptedBatches++
 			if !wait(h.doneCh[b]) {
@@ -582,46 +704,203 @@ firing:
 			out.refusedBatches++
 		}
 	}
+	defer h.releaseGate() // runs before the deferred stop
+	if cs.StopOverlap {
+		// the last batch: all its check closures are fired (position len-1 is handled last and passes
+		// its check); the inserter is held inside the HighestLamport call for that last copy
+		b := mainN
+		pass := 0
+		for _, ce := range cs.Batches[b].CheckErr {
+			if !ce {
+				pass++
+			}
+		}
+		h.mu.Lock()
+		h.gateLeft = pass
+		h.mu.Unlock()
+		enqueue(b)
+		if h.accepted[b] == 1 {
+			out.acceptedBatches++
+			for _, pos := range cs.LastOrder {
+				cp := h.batchCopies[b][pos]
+				if !wait(h.copies[cp].arrived) {
+					out.inconclusive = "a stored check closure did not arrive before the deadline"
+					return h, out
+				}
+				h.fire(cp)
+			}
+			select {
+			case <-h.gateEntered:
+				out.overlapped = true
+			case <-h.doneCh[b]:
+				out.overlapGateMissed = true
+			case <-deadline.C:
+				expired = true
+				out.inconclusive = "the last batch was neither finished nor at its last HighestLamport call before the deadline"
+				return h, out
+			}
+		} else {
+			out.refusedBatches++
+			out.overlapLastRefused = true
+			h.mu.Lock()
+			h.gateLeft = 0
+			h.mu.Unlock()
+		}
+	}
+	if !out.overlapped {
+		h.mu.Lock()
+		out.waited = h.anyHeld(-1)
+		h.checkBeforeStop(out)
+		h.log = append(h.log, entry{kind: "Stop", cp: -1, ev: -1})
+		h.mu.Unlock()
+		stop()
+		h.mu.Lock()
+		h.checkAfterStop(out)
+		h.mu.Unlock()
+		return h, out
+	}
+	// Stop() overlaps the handling of the last check result
+	last := mainN
+	gated := h.batchCopies[last][len(h.batchCopies[last])-1]
 	h.mu.Lock()
-	h.checkBeforeStop(out)
-	h.log = append(h.log, entry{kind: "Stop", cp: -1, ev: -1})
+	out.waited = h.anyHeld(-1)
+	out.overlapOthersHeld = h.anyHeld(last)
+	h.log = append(h.log, entry{kind: "Stop (from its own goroutine; the inserter is inside HighestLamport for the last copy)", cp: -1, ev: -1})
+	h.stopBegun = true
 	h.mu.Unlock()
-	stop()
+	stopped = true
+	stoppedCh := make(chan struct{})
+	go func() {
+		proc.Stop()
+		close(stoppedCh)
+	}()
+	// scheduling aid only (no verdict depends on it): let Stop() get as far as it can while the inserter
+	// is held. Terminate() zeroes the semaphore's capacity, so Available() wraps around.
+	for i := 0; i < 100000; i++ {
+		if h.sem.Available().Num > h.cap.Num {
+			out.overlapSawTerminate = true
+			break
+		}
+		time.Sleep(20 * time.Microsecond)
+	}
+	select {
+	case <-h.relSignal: // something was released although the workers have not finished
+	case <-time.After(300 * time.Microsecond):
+	}
 	h.mu.Lock()
+	h.log = append(h.log, entry{kind: "HighestLamport returns to the inserter", cp: -1, ev: -1})
+	h.mu.Unlock()
+	h.releaseGate()
+	if !wait(h.doneCh[last]) {
+		out.inconclusive = "done of the last batch was not called before the deadline"
+		return h, out
+	}
+	if !wait(stoppedCh) {
+		out.inconclusive = "Stop did not return before the deadline"
+		return h, out
+	}
+	h.mu.Lock()
+	h.log = append(h.log, entry{kind: "Stop-returned", cp: -1, ev: -1})
+	doneAt := -1
+	for i, l := range h.log {
+		if l.kind == "done" && l.note == fmt.Sprintf("batch %d", last) {
+			doneAt = i
+		}
+		if l.kind == "Released" && l.cp == gated && doneAt >= 0 {
+			out.overlapGatedReleasedByStop = true
+		}
+	}
+	h.checkBeforeStop(out)
 	h.checkAfterStop(out)
 	h.mu.Unlock()
 	return h, out
+}
+
+// anyHeld: some copy of an accepted batch other than `except` is not released yet. h.mu held.
+func (h *harness) anyHeld(except int) bool {
+	for cp := range h.copies {
+		st := &h.copies[cp]
+		if h.accepted[st.batch] == 1 && st.batch != except && st.released == 0 {
+			return true
+		}
+	}
+	return false
+}
+
+// firedHandled: the check results the inserter can have consumed by now were consumed (the copy was
+// released or reached the buffer). The inserter handles the accepted batches one after the other.
+// h.mu held.
+func (h *harness) firedHandled() bool {
+	for b := range h.batchCopies {
+		if h.accepted[b] != 1 {
+			continue
+		}
+		complete := true
+		for _, cp := range h.batchCopies[b] {
+			st := &h.copies[cp]
+			if !st.fired {
+				complete = false
+				if h.cs.Batches[b].Ordered {
+					break
+				}
+				continue
+			}
+			if st.released == 0 && st.touchedAt < 0 {
+				return false
+			}
+		}
+		if !complete {
+			return true // the inserter waits for the remaining results of this batch
+		}
+	}
+	return true
 }
 
 // checkBeforeStop: all accepted batches are handled (their done was called). h.mu held.
 func (h *harness) checkBeforeStop(out *outcome) {
 	cs := h.cs
 	t0 := h.threshold(idx.Lamport(cs.Highest))
-	clean := !cs.Dynamic
+	clean := !cs.Dynamic && !cs.Scheduled
 	anyRefused := false
 	for b, bs := range cs.Batches {
 		if h.accepted[b] != 1 {
 			anyRefused = true
 			continue
 		}
-		// classification + "not rejected and not too far ahead => reaches the buffer"
+		// classification + "not rejected and not too far ahead => reaches the buffer".
+		// The HighestLamport call for a copy of this batch came between the Enqueue call and the done of
+		// the batch: it returned at least lo and at most hi (lo == hi == the constant in the constant mode;
+		// lo == the value at the Enqueue call when the value only follows processed events upwards).
+		to := h.doneHist[b]
+		if to < 0 {
+			to = len(h.hist) - 1
+		}
+		lo, hi := h.window(h.enqHist[b], to)
+		tlo, thi := h.threshold(lo), h.threshold(hi)
+		if lo != hi {
+			out.windowMoved = true
+		}
+		_, before := h.window(0, h.enqHist[b])
 		inversion := false
 		for pos, cp := range h.batchCopies[b] {
 			st := &h.copies[cp]
 			l := uint64(cs.Events[st.ev].Lamport)
-			if l > t0 {
+			if l > thi {
 				out.farFutureInBatch = true
+				if !bs.CheckErr[pos] && l <= h.threshold(before) {
+					out.staleSensitive = true
+				}
 			}
-			if l == t0 {
+			if l == tlo {
 				out.boundaryEvent = true
 			}
 			if bs.CheckErr[pos] {
 				out.checkRejected = true
 				clean = false
 			}
-			if !bs.CheckErr[pos] && l <= t0 && st.touchedAt < 0 {
-				h.violate("copy %d (e%d, Lamport %d, batch %d) passed its check and is not too far ahead (allowed up to %d) but never reached the ordering buffer",
-					cp, st.ev, l, b, t0)
+			if !bs.CheckErr[pos] && l <= tlo && st.touchedAt < 0 {
+				h.violate("copy %d (e%d, Lamport %d, batch %d) passed its check and is not too far ahead (the highest known Lamport was never below %d between the Enqueue call and the done of its batch: allowed up to %d) but never reached the ordering buffer",
+					cp, st.ev, l, b, lo, tlo)
 			}
 			if st.released == 0 {
 				out.waited = true
@@ -752,10 +1031,17 @@ func (h *harness) describe() string {
 		}
 		b.WriteString("\n")
 	}
-	fmt.Fprintf(&b, "semaphore capacity {Num=%d,Size=%d}, EventsBufferLimit {Num=%d,Size=%d}, highest Lamport %d (follows processed: %v), too far ahead above %d, MaxTasks %d, semaphore timeout %dms, firing goroutines %d\n",
-		cs.SemNum, cs.SemSize, cs.BufNum, cs.BufSize, cs.Highest, cs.Dynamic, h.threshold(idx.Lamport(cs.Highest)), cs.MaxTasks, cs.TimeoutMs, cs.Goroutines)
+	fmt.Fprintf(&b, "semaphore capacity {Num=%d,Size=%d}, EventsBufferLimit {Num=%d,Size=%d}, initial highest Lamport %d (follows processed: %v, follows a schedule that may decrease: %v), too far ahead of the initial value above %d, MaxTasks %d, semaphore timeout %dms, firing goroutines %d\n",
+		cs.SemNum, cs.SemSize, cs.BufNum, cs.BufSize, cs.Highest, cs.Dynamic, cs.Scheduled, h.threshold(idx.Lamport(cs.Highest)), cs.MaxTasks, cs.TimeoutMs, cs.Goroutines)
 	for i, bs := range cs.Batches {
-		fmt.Fprintf(&b, "batch %d: ordered=%v async=%v events=%v parentless-check-fails=%v copies=%v\n", i, bs.Ordered, bs.Async, bs.Events, bs.CheckErr, h.batchCopies[i])
+		fmt.Fprintf(&b, "batch %d: ordered=%v async=%v events=%v parentless-check-fails=%v copies=%v", i, bs.Ordered, bs.Async, bs.Events, bs.CheckErr, h.batchCopies[i])
+		if bs.HasSet {
+			fmt.Fprintf(&b, " [highest Lamport becomes %d before its Enqueue call]", bs.SetTo)
+		}
+		if cs.StopOverlap && i == len(cs.Batches)-1 {
+			fmt.Fprintf(&b, " [enqueued after every other done, closures fired in position order %v, Stop() starts inside the last HighestLamport call]", cs.LastOrder)
+		}
+		b.WriteString("\n")
 	}
 	b.WriteString("observed:\n")
 	for _, l := range h.log {
@@ -815,13 +1101,50 @@ func genCase(t *rapid.T) *caseSpec {
 		}
 		cs.Events = append(cs.Events, e)
 	}
-	// batches
-	nb := rapid.IntRange(1, 4).Draw(t, "batches")
-	clean := rapid.IntRange(0, 4).Draw(t, "clean") < 2
+	// how the highest known Lamport behaves, and whether Stop() overlaps the last batch
+	switch rapid.SampledFrom([]int{0, 0, 0, 0, 1, 1, 2, 2, 2, 2}).Draw(t, "highestMode") {
+	case 1:
+		cs.Dynamic = true
+	case 2:
+		cs.Scheduled = true
+	}
+	cs.StopOverlap = rapid.SampledFrom([]int{0, 0, 1}).Draw(t, "stopOverlap") == 1
 	idxs := make([]int, n)
 	for i := range idxs {
 		idxs[i] = i
 	}
+	orphan2 := -1
+	if cs.StopOverlap {
+		// a ghost that is never supplied and two children of it: they stay in the ordering buffer.
+		// The first child may appear in any batch, the second one is reserved for the last batch.
+		for k := 0; k < 3; k++ {
+			var e evSpec
+			d := 0
+			if k > 0 {
+				e.Parents = []int{n}
+				d = 1
+			}
+			if sizeMode == 0 {
+				e.Size = 56 + 32*len(e.Parents)
+			} else {
+				e.Size = rapid.IntRange(1, 20).Draw(t, "size")
+			}
+			cs.Events = append(cs.Events, e)
+			depth = append(depth, d)
+		}
+		if maxd < 1 {
+			maxd = 1
+		}
+		idxs = append(idxs, n+1)
+		orphan2 = n + 2
+		n += 3
+	}
+	// batches
+	nb := rapid.IntRange(1, 4).Draw(t, "batches")
+	if cs.Scheduled && nb < 2 {
+		nb = 2
+	}
+	clean := rapid.IntRange(0, 4).Draw(t, "clean") < 2
 	copies := 0
 	var maxBatch dag.Metric
 	var total dag.Metric
@@ -830,8 +1153,8 @@ func genCase(t *rapid.T) *caseSpec {
 		bs.Ordered = rapid.IntRange(0, 2).Draw(t, "ordered") > 0
 		bs.Async = rapid.IntRange(0, 3).Draw(t, "async") == 0
 		sz := rapid.IntRange(1, 8).Draw(t, "batchSize")
-		if sz > n {
-			sz = n
+		if sz > len(idxs) {
+			sz = len(idxs)
 		}
 		perm := rapid.Permutation(idxs).Draw(t, "batchEvents")
 		bs.Events = append([]int(nil), perm[:sz]...)
@@ -856,6 +1179,50 @@ func genCase(t *rapid.T) *caseSpec {
 		total.Size += m.Size
 		copies += sz
 		cs.Batches = append(cs.Batches, bs)
+	}
+	mainCopies := copies
+	if cs.StopOverlap {
+		// the last batch: 1-3 events, the copy at the last position passes its check and is handled last
+		var bs batchSpec
+		bs.Ordered = rapid.Bool().Draw(t, "lastOrdered")
+		sz := rapid.IntRange(1, 3).Draw(t, "lastBatchSize")
+		perm := rapid.Permutation(idxs).Draw(t, "lastBatchEvents")
+		bs.Events = append([]int(nil), perm[:sz-1]...)
+		lastEv := orphan2
+		if rapid.IntRange(0, 3).Draw(t, "lastIsRegular") == 0 {
+			lastEv = perm[sz-1]
+		}
+		bs.Events = append(bs.Events, lastEv)
+		var m dag.Metric
+		for pos, ev := range bs.Events {
+			bs.CheckErr = append(bs.CheckErr, pos < sz-1 && !clean && rapid.IntRange(0, 6).Draw(t, "checkErr") == 0)
+			m.Num++
+			m.Size += uint64(cs.Events[ev].Size)
+		}
+		if m.Num > maxBatch.Num {
+			maxBatch.Num = m.Num
+		}
+		if m.Size > maxBatch.Size {
+			maxBatch.Size = m.Size
+		}
+		total.Num += m.Num
+		total.Size += m.Size
+		copies += sz
+		cs.Batches = append(cs.Batches, bs)
+		front := make([]int, sz-1)
+		for i := range front {
+			front[i] = i
+		}
+		if bs.Ordered {
+			front = append(front, sz-1)
+		}
+		if len(front) > 1 {
+			front = rapid.Permutation(front).Draw(t, "lastOrder")
+		}
+		cs.LastOrder = front
+		if !bs.Ordered {
+			cs.LastOrder = append(cs.LastOrder, sz-1)
+		}
 	}
 	if !clean {
 		for i := range cs.Events {
@@ -909,16 +1276,51 @@ func genCase(t *rapid.T) *caseSpec {
 		cs.BufNum, cs.BufSize = uint32(n)+uint32(rapid.IntRange(0, 3).Draw(t, "bufExtra")), total.Size+allSize
 	}
 	// Lamport times around the "too far ahead" boundary T = highest + BufNum + 1
-	cs.Highest = uint32(rapid.IntRange(maxd+5, 400).Draw(t, "highest"))
-	cs.Dynamic = rapid.IntRange(0, 3).Draw(t, "dynamic") == 0
-	T := uint64(cs.Highest) + uint64(cs.BufNum) + 1
+	lowest := maxd + 5
+	if cs.Scheduled {
+		lowest += 40 // room for a drop by more than the buffer limit
+	}
+	cs.Highest = uint32(rapid.IntRange(lowest, lowest+400).Draw(t, "highest"))
+	// the levels the highest known Lamport takes (only the first one unless it follows a schedule)
+	levels := []uint32{cs.Highest}
+	if cs.Scheduled {
+		nl := rapid.IntRange(1, 3).Draw(t, "levelChanges")
+		for k := 0; k < nl; k++ {
+			prev := int64(levels[len(levels)-1])
+			var v int64
+			switch rapid.SampledFrom([]int{0, 0, 0, 1, 2}).Draw(t, "levelChange") {
+			case 0: // drops by more than the buffer limit (an epoch switch)
+				v = prev - int64(cs.BufNum) - 1 - int64(rapid.IntRange(0, maxd+3).Draw(t, "dropExtra"))
+			case 1: // drops by less
+				v = prev - int64(rapid.IntRange(1, int(cs.BufNum)+1).Draw(t, "dropSmall"))
+			default: // rises
+				v = prev + int64(rapid.IntRange(1, int(cs.BufNum)+maxd+5).Draw(t, "rise"))
+			}
+			if v < 0 {
+				v = 0
+			}
+			levels = append(levels, uint32(v))
+		}
+		// changes right before the Enqueue call of a batch, in level order
+		k := 1
+		for b := 1; b < len(cs.Batches) && k < len(levels); b++ {
+			if rapid.Bool().Draw(t, "changeBeforeBatch") || (b == len(cs.Batches)-1 && k == 1) {
+				cs.Batches[b].HasSet, cs.Batches[b].SetTo = true, levels[k]
+				k++
+			}
+		}
+	}
 	o := maxd + 1 // no event is too far ahead because of its depth
 	if rapid.IntRange(0, 2).Draw(t, "boundaryInside") > 0 {
 		o = rapid.IntRange(-1, maxd).Draw(t, "boundaryDepth")
 	}
-	base := int64(T) - int64(o)
 	for i := range cs.Events {
-		l := base + int64(depth[i])
+		level := levels[0]
+		if len(levels) > 1 {
+			level = rapid.SampledFrom(levels).Draw(t, "lamportLevel")
+		}
+		T := uint64(level) + uint64(cs.BufNum) + 1
+		l := int64(T) - int64(o) + int64(depth[i])
 		switch rapid.IntRange(0, 23).Draw(t, "lamportMode") {
 		case 0:
 			l = int64(T) + int64(rapid.SampledFrom([]int{1, 2, 1000}).Draw(t, "ahead"))
@@ -927,18 +1329,36 @@ func genCase(t *rapid.T) *caseSpec {
 		case 2:
 			l = int64(^uint32(0))
 		}
+		if i == orphan2 && rapid.IntRange(0, 7).Draw(t, "orphanFar") > 0 {
+			// mostly not too far ahead of any level: it is pushed into the buffer and stays there
+			lowestLevel := levels[0]
+			for _, v := range levels {
+				if v < lowestLevel {
+					lowestLevel = v
+				}
+			}
+			l = int64(lowestLevel) + int64(rapid.IntRange(0, int(cs.BufNum)+1).Draw(t, "orphanAhead"))
+		}
 		if l < 1 {
 			l = 1
 		}
 		cs.Events[i].Lamport = uint32(l)
 	}
-	cs.MaxTasks = rapid.SampledFrom([]int{nb + 1, 16, 128}).Draw(t, "maxTasks")
+	cs.MaxTasks = rapid.SampledFrom([]int{len(cs.Batches) + 1, 16, 128}).Draw(t, "maxTasks")
 	cs.TimeoutMs = rapid.SampledFrom([]int{0, 0, 1, 1, 30}).Draw(t, "timeoutMs")
 	cs.NotifyNil = rapid.IntRange(0, 3).Draw(t, "notifyNil") == 0
 	// schedule
-	nsteps := rapid.IntRange(0, nb+copies).Draw(t, "steps")
+	minSteps := 0
+	if cs.Scheduled {
+		minSteps = nb + 1
+	}
+	nsteps := rapid.IntRange(minSteps, nb+mainCopies).Draw(t, "steps")
 	for i := 0; i < nsteps; i++ {
-		cs.Steps = append(cs.Steps, step{Fire: rapid.IntRange(0, 2).Draw(t, "fire") > 0, Pick: rapid.IntRange(0, 31).Draw(t, "pick")})
+		sp := step{Fire: rapid.IntRange(0, 2).Draw(t, "fire") > 0, Pick: rapid.IntRange(0, 31).Draw(t, "pick")}
+		if cs.Scheduled && rapid.IntRange(0, 7).Draw(t, "setStep") == 0 {
+			sp = step{Set: true, SetTo: rapid.SampledFrom(levels).Draw(t, "setTo")}
+		}
+		cs.Steps = append(cs.Steps, sp)
 	}
 	cs.Goroutines = rapid.IntRange(1, 3).Draw(t, "goroutines")
 	prioMode := rapid.IntRange(0, 2).Draw(t, "prioMode")
@@ -1001,6 +1421,16 @@ func TestC15Processor(t *testing.T) {
 		add(out.checkRejected, "parentless_check_rejected")
 		add(dup, "duplicate_across_batches")
 		add(cs.Dynamic, "highest_follows_processed")
+		add(cs.Scheduled, "highest_follows_schedule_may_decrease")
+		add(out.windowMoved, "highest_changed_while_batch_in_flight")
+		add(out.staleSensitive, "event_too_far_ahead_only_of_lowered_highest")
+		add(cs.StopOverlap, "stop_overlap_requested")
+		add(out.overlapped, "stop_overlaps_last_batch")
+		add(out.overlapped && out.overlapSawTerminate, "stop_overlap_terminate_seen_before_release")
+		add(out.overlapped && out.overlapOthersHeld, "stop_overlap_other_copies_buffered")
+		add(out.overlapGatedReleasedByStop, "stop_overlap_last_copy_released_by_final_clear")
+		add(out.overlapLastRefused, "stop_overlap_last_batch_refused")
+		add(out.overlapGateMissed, "stop_overlap_gate_missed")
 		add(len(cs.Steps) > 0, "enqueue_and_fire_interleaved")
 		st.Case(stats.Hash(*cs), out.orderedOutOfOrder || out.farFutureInBatch, classes...)
 		st.Sample(func() interface{} { return cs })
